@@ -32,6 +32,24 @@ OBLIGATIONS = [
 ]
 
 
+
+
+def _od(fn, secs, bounds):
+    o = _o(fn, secs, bounds, "thorough")
+    o.name = fn + "@d1"
+    o.env = {"VERIF_DEPTH": "1"}
+    o.timeout = max(300, secs * 4)
+    return o
+
+
+# thorough tier: one more character / two more digits (VERIF_DEPTH=1)
+OBLIGATIONS += [
+    _od("bool_reject", 10, "any string of <= 7 characters"), _od("bool_encode_str", 260, "strings of <= 5 characters over {t,T,r,u,e}"),
+    _od("dur_decode_days", 170, "[-]PnDTnHnMnS, d <= 99999"),  # (dur_decode_rt with h <= 99999 did not finish in 1180 s: not claimed)
+    _od("dur_reject_prefix", 30, "strings of <= 4 characters over {-,P,T,1,H,M,S,D,x}"),
+    _od("datetime_z", 10, "any isoformat() result of <= 9 characters"), _od("hexa_color_str", 120, "strings of <= 4 characters over {space,#,0,a,F}"),
+]
+
 _E3ENC = ["src/odfdo/datatype.py:Duration.encode (AST -> SMT-LIB, regenerated from the source on every run)"]
 _E3STUB = ["the isinstance(value, timedelta) guard is assumed true; timedelta normal form (0 <= seconds < 86400, microseconds == 0) is the input domain",
            "C's %02d conversion of a float modelled as truncation toward zero; validated on 20 concrete vectors against the real function on every run"]
